@@ -96,18 +96,24 @@ def ticksToSqrtPrice (lo hi : Int) (tp : TickParams) : Res (Dec × Dec) := do
   let l ← tickToSqrtPrice lo tp
   return (l, u)
 
-/-- the two search loops of CalculateMultipliedPriceToTick (no gas, no progress guarantee in Go) -/
+/-- the two search loops of CalculateMultipliedPriceToTick (no gas meter in Go); as fixed, a step that does not move
+    the price ends the search with ErrPriceOutOfBound -/
 def searchUp (ratio target : Dec) : Nat → Dec → Int → Res Int
   | 0, _, _ => .err "fuel"
   | fuel+1, p, t =>
     if p.raw > target.raw then
-      if ratio.isZero then .panic .divZero else searchUp ratio target fuel (Dec.quo p ratio) (t + 1)
+      if ratio.isZero then .panic .divZero
+      else
+        let next := Dec.quo p ratio
+        if !(next.raw < p.raw) then .err "price-out-of-bound" else searchUp ratio target fuel next (t + 1)
     else .ok t
 
 def searchDown (ratio target : Dec) : Nat → Dec → Int → Res Int
   | 0, _, _ => .err "fuel"
   | fuel+1, p, t =>
-    if p.raw < target.raw then searchDown ratio target fuel (Dec.mul p ratio) (t - 1)
+    if p.raw < target.raw then
+      let next := Dec.mul p ratio
+      if !(next.raw > p.raw) then .err "price-out-of-bound" else searchDown ratio target fuel next (t - 1)
     else .ok t
 
 def SEARCH_FUEL : Nat := 3000000
